@@ -530,6 +530,8 @@ func (fr *Frame) applyContract(st *State, ct *FnContract, callee *ssa.Function, 
 		} else {
 			bindSigNames(names, sig, args)
 			pkg = fr.fn.Package().Pkg
+			// the function value being called, for contracts that name the callback's behaviour by an uninterpreted function
+			names["callee"] = Val{T: fr.val(cc.Value), K: "raw:Fn"}
 		}
 	}
 	if ct.Trusted {
